@@ -216,7 +216,7 @@ PROPERTIES = {
         ],
     },
     "C07": {
-        "modules": ["contracts.core_models", "contracts.c13_types", "contracts.c07_drivers", "contracts.c07_always", "contracts.c12_instances", "contracts.c03_refvisit"],
+        "modules": ["contracts.core_models", "contracts.c13_types", "contracts.c07_drivers", "contracts.c07_always", "contracts.c12_instances", "contracts.c03_refvisit", "contracts.c07_scopes"],
         "level": "proof",
         "explanation": "the usage check of ir.EntityTemplate.__init__ is proved against a per-event contract stated for ARBITRARY ghost maps (writer / user per root): a write or push to an input port, a second writer (context or instance output, in either order, slices and views through their root), or a variable / intermediate used by a second context is rejected, otherwise the maps are updated for exactly that root; the instance loop treats every output port (also two outputs of the same instance) as a driver. By induction on the event stream a normal return implies one driver per root. Known findings: the always-block of a sequential context is not a separate driver.",
         "assumptions": COMMON_ASSUME + [
